@@ -966,7 +966,6 @@ From V Require Import EngineEquivDone RunConformHistRel RunConformHistSpec RunCo
      targets_noinitb      no transition targets an <initial> element (replaces targets_properb: a <history> may be targeted)
      hist_target_localb   no transition targets a DEEP history whose parent properly encloses the transition's source
                           (known finding C01-K5; for a shallow history the two transition domains coincide)
-     hist_targets_nodupb  no transition names the same <history> twice in its target list
      leaf_okb             atomic and <final> states have no child states (EngineEquivDone.v; the SCXML schema)
    Static conditions of the run-level theorems (RunConformHistStep.static_hb): micro_static_hb, root_unmentionedb,
    chart_named, root_onexit_emptyb, root_plainb (as for wf_initb documents).  The dynamic guards (step_guardb, run_guardb,
@@ -1082,13 +1081,12 @@ Print Assumptions entry_set_conforms_history_partial.
    of a targeted history child without a value (Appendix D: defaultHistoryContent[s.id] after the onentry of the history's
    PARENT s; engine: the transitions of the pseudo-state children of s that are in the transition set -- the same place),
    done events.  From corresponding states with related histories the two microsteps end in corresponding states with
-   related histories, the same store, queues and trace (Appendix D appends its TCfg token).  sel: duplicate-free
-   (what SELECT_TRANSITIONS returns: ascending). *)
+   related histories, the same store, queues and trace (Appendix D appends its TCfg token). *)
 Theorem microstep_conforms_history_partial : forall late t0 sel l s x,
   let c := flatten late t0 in
   micro_static_hb c = true -> legal_configb c (l_cfg l) = true ->
   HistOK c (l_hist l) -> HistDown c (l_hist l) -> hv_rel c (l_hist l) (Spec.s_hv s) -> corr c l s ->
-  NoDup sel -> (forall ti, In ti sel -> In (ft_source (tr c ti)) (l_cfg l)) ->
+  (forall ti, In ti sel -> In (ft_source (tr c ti)) (l_cfg l)) ->
   pairwise_ok lg_fixed c sel ->
   (forall ti, In ti sel -> ft_history (tr c ti) || ft_initial (tr c ti) = false) ->
   let r := microstep lg_fixed ex_fixed c l (emit TMsB x) (sel_targets c sel) (sel_exitset c (l_cfg l) sel) sel false in
@@ -1214,7 +1212,7 @@ Proof. exact run_conforms_history_nonvacuous. Qed.
 Print Assumptions run_conforms_history_hypotheses_satisfiable.
 
 (* (6) witnesses (by computation; static_h_parts_of lists wf_histb, root_compoundb, par_nonemptyb, targets_antichainb, done_okb,
-   root_silentb, (cpl_okb, cpl_antib, targets_noinitb), (hist_target_localb, hist_targets_nodupb, leaf_okb),
+   root_silentb, (cpl_okb, cpl_antib, targets_noinitb), (hist_target_localb, leaf_okb),
    (root_unmentionedb, chart_named, root_onexit_emptyb), root_plainb; all other conditions, the run guard and completeness hold) *)
 (* C01-K5 at run level: <state id=s1><history id=s2 type=deep><transition target=s4/></history>
                          <state id=s3><state id=s4><transition event=e target=s2/></state><state id=s5/></state></state>, event e.
@@ -1223,25 +1221,38 @@ Print Assumptions run_conforms_history_hypotheses_satisfiable.
    is entered again.  The corner is in the Recommendation's algorithm; the engines' run is the sensible one. *)
 Theorem run_hist_target_enclosing_refuted :
   exists late t evs fuel, let c := flatten late t in
-    static_h_parts_of c = (true, true, true, true, true, true, (true, true, true), (false, true, true), (true, true, true), true) /\
+    static_h_parts_of c = (true, true, true, true, true, true, (true, true, true), (false, true), (true, true, true), true) /\
     run_guardb c evs fuel = true /\ run_completeb c evs fuel = true /\ views_differ late t evs fuel.
 Proof. exact RunConformHistWitness.run_hist_target_enclosing_refuted. Qed.
 Print Assumptions run_hist_target_enclosing_refuted.
 
-(* target="s3 s3", s3 a history without a value and with default content: Spec.v keeps defaultHistoryContent as a LIST of
-   pairs and runs every pair of the entered state (twice); the engine runs the content once; Appendix D assigns into a
-   TABLE (once).  Here the engine follows Appendix D and the transliteration Spec.v does not. *)
-Theorem run_hist_target_twice_refuted :
-  exists late t evs fuel, let c := flatten late t in
-    static_h_parts_of c = (true, true, true, true, true, true, (true, true, true), (true, false, true), (true, true, true), true) /\
-    run_guardb c evs fuel = true /\ run_completeb c evs fuel = true /\ views_differ late t evs fuel.
-Proof. exact RunConformHistWitness.run_hist_target_twice_refuted. Qed.
-Print Assumptions run_hist_target_twice_refuted.
+(* target="s3 s3", s3 a history without a value and with default content (RunConformHistWitness.hw_twice):
+     <state id=s1><transition event=e target="s3 s3"/></state>
+     <state id=s2><history id=s3><transition target=s4> log </transition></history><state id=s4/></state>
+   Appendix D assigns defaultHistoryContent[s2] twice -- a table: the second assignment replaces the first (Spec.v:
+   e_histcontent keeps one entry per parent) -- and runs the content once after the onentry of s2, as the engine does.
+   The document satisfies static_hb, the guards hold, and the run conforms for every spec fuel (an instance of
+   run_conforms_history_partial).  With defaultHistoryContent as a list of pairs, as Spec.v once had it, this document
+   was the witness that Spec.v was not Appendix D. *)
+Theorem run_hist_target_twice_hypotheses :
+  let c := flatten false hw_twice in
+  static_hb c = true /\ run_guardb c [[101%N]] 20 = true /\ run_completeb c [[101%N]] 20 = true /\
+  spec_view 0 (fst (run_large lg_fixed ex_fixed false hw_twice [[101%N]] 20)) =
+    [TMsB; TEb 1%N; TEe 1%N; TMsE; TCfg [1%N]; TEv [101%N]; TMsB; TXb 1%N; TXe 1%N; TTb 101%N; TTe 101%N; TEb 2%N; TEe 2%N;
+     TTb 120%N; TCb 301%N; TLog 1%Z; TCe 301%N; TTe 120%N; TEb 4%N; TEe 4%N; TMsE; TCfg [2%N; 4%N]].
+Proof. exact RunConformHistWitness.run_hist_target_twice_hypotheses. Qed.
+Print Assumptions run_hist_target_twice_hypotheses.
+
+Theorem run_hist_target_twice_conforms : forall fuel', 20 <= fuel' ->
+  spec_view 0 (fst (run_large lg_fixed ex_fixed false hw_twice [[101%N]] 20)) = spec_view 0 (fst (run_spec false hw_twice [[101%N]] fuel')) /\
+  snd (run_large lg_fixed ex_fixed false hw_twice [[101%N]] 20) = snd (run_spec false hw_twice [[101%N]] fuel').
+Proof. exact RunConformHistWitness.run_hist_target_twice_conforms. Qed.
+Print Assumptions run_hist_target_twice_conforms.
 
 (* a transition whose target is an <initial> element *)
 Theorem run_target_initial_element_history_refuted :
   exists late t evs fuel, let c := flatten late t in
-    static_h_parts_of c = (true, true, true, true, true, true, (true, true, false), (true, true, true), (true, true, true), true) /\
+    static_h_parts_of c = (true, true, true, true, true, true, (true, true, false), (true, true), (true, true, true), true) /\
     run_guardb c evs fuel = true /\ run_completeb c evs fuel = true /\ views_differ late t evs fuel.
 Proof. exact RunConformHistWitness.run_target_initial_element_hist_refuted. Qed.
 Print Assumptions run_target_initial_element_history_refuted.
@@ -1250,7 +1261,7 @@ Print Assumptions run_target_initial_element_history_refuted.
    re-entered through the history; the document violates leaf_okb only, and the two runs agree *)
 Theorem run_final_with_child_agrees :
   let c := flatten false hw_final_child in let evs := [[101%N]; [102%N]; [103%N]] in
-  static_h_parts_of c = (true, true, true, true, true, true, (true, true, true), (true, true, false), (true, true, true), true) /\
+  static_h_parts_of c = (true, true, true, true, true, true, (true, true, true), (true, false), (true, true, true), true) /\
   run_guardb c evs 30 = true /\ run_completeb c evs 30 = true /\
   spec_view 0 (fst (run_large lg_fixed ex_fixed false hw_final_child evs 30)) = spec_view 0 (fst (run_spec false hw_final_child evs 30)).
 Proof. exact RunConformHistWitness.run_final_with_child_agrees. Qed.
